@@ -43,11 +43,12 @@ type c04Exec struct {
 
 // c04Round is one fresh breaker with its recorded timeline.
 type c04Round struct {
-	cs    c04Case
-	seq   atomic.Int64
-	clock atomic.Int64
-	mu    sync.Mutex
-	trans []struct {
+	cs         c04Case
+	seq        atomic.Int64
+	clock      atomic.Int64
+	delayCalls atomic.Int64
+	mu         sync.Mutex
+	trans      []struct {
 		seq   int64
 		state int
 	} // state transitions as seen by the listeners (under the breaker's lock)
@@ -60,7 +61,13 @@ func newC04Round(cs c04Case) *c04Round {
 	rd := &c04Round{cs: cs}
 	b := buildBreaker(cs.Cfg, func() int64 { return rd.clock.Load() })
 	if cs.DelayFunc {
-		b.WithDelayFunc(func(failsafe.ExecutionAttempt[int]) time.Duration { return time.Duration(cs.Cfg.Delay) })
+		// the first opening gets the configured delay, every later one (a re-open from half-open) seven times as much
+		b.WithDelayFunc(func(failsafe.ExecutionAttempt[int]) time.Duration {
+			if rd.delayCalls.Add(1) == 1 {
+				return time.Duration(cs.Cfg.Delay)
+			}
+			return 7 * time.Duration(cs.Cfg.Delay)
+		})
 	}
 	b.OnStateChanged(func(e circuitbreaker.StateChangedEvent) {
 		s := rd.seq.Add(1)
@@ -174,7 +181,7 @@ func refusedOutcome(comp string, x *c04Exec) bool {
 }
 
 func checkC04(rep *vk.Report) {
-	rep.Rule = "round = fresh count-, ratio- or time-based breaker (with and without a success threshold, execution threshold above and below the success capacity) on a virtual clock behind one of {cb, retry(cb), timeout(cb), cb(timeout), fallback(cb)}, sync or async. Phase 1: 8-32 goroutines race failing/succeeding executions until OnOpen and keep arriving after it with the clock frozen: every execution whose call event follows the OnOpen event (taken inside the listener, under the breaker's lock) with no later transition must not enter the function and must end in the ErrOpen-derived outcome. Phase 2 (after a barrier): the clock jumps to the delay, callers block inside the function on a gate, outcomes success/failure/context-cancelled/timed-out are released in random order: executions admitted within one half-open episode never overlap more than the trial capacity; after quiescence in a still undecided half-open state exactly capacity TryAcquirePermit probes succeed. Plus concurrent standalone histories (TryAcquirePermit/Record*/State/Open/HalfOpen/Close/Advance) checked with porcupine against the C03 machine. Non-trivial: a round with >=1 execution in flight across the opening and >=1 refused after it, or a half-open phase with more callers than capacity; distinct by (config, composition, workers, async, in-flight-across-opening, max half-open overlap)."
+	rep.Rule = "round = fresh count-, ratio- or time-based breaker (with and without a success threshold, execution threshold above and below the success capacity) on a virtual clock behind one of {cb, retry(cb), timeout(cb), cb(timeout), fallback(cb)}, sync or async. Phase 1: 8-32 goroutines race failing/succeeding executions until OnOpen and keep arriving after it with the clock frozen: every execution whose call event follows the OnOpen event (taken inside the listener, under the breaker's lock) with no later transition must not enter the function and must end in the ErrOpen-derived outcome. Phase 2 (after a barrier): the clock jumps to the delay, callers block inside the function on a gate, outcomes success/failure/context-cancelled/timed-out are released in random order: executions admitted within one half-open episode never overlap more than the trial capacity; after quiescence in a still undecided half-open state exactly capacity TryAcquirePermit probes succeed. Phase 3: when the trials re-opened the breaker and a delay function is configured (it asks for 7x the delay from its second call on), RemainingDelay reports that delay and an execution after the fixed delay is still refused. Plus concurrent standalone histories (TryAcquirePermit/Record*/State/Open/HalfOpen/Close/Advance) checked with porcupine against the C03 machine. Non-trivial: a round with >=1 execution in flight across the opening and >=1 refused after it, or a half-open phase with more callers than capacity; distinct by (config, composition, workers, async, in-flight-across-opening, max half-open overlap)."
 	rep.Assumptions = []string{
 		"ordering argument: the OnStateChanged listener runs under the breaker's lock after the state was replaced, admission takes the same lock after the caller's call event",
 		"half-open bound is only claimed when no execution admitted before the opening is still in flight (barrier between the phases)",
@@ -306,6 +313,7 @@ func c04RunRound(rep *vk.Report, idx int) {
 	}
 
 	// ---- phase 2: half-open. All phase-1 executions have returned (barrier above).
+	delayCallsPhase1 := rd.delayCalls.Load()
 	rd.mu.Lock()
 	rd.execs = nil
 	rd.mu.Unlock()
@@ -426,6 +434,28 @@ func c04RunRound(rep *vk.Report, idx int) {
 			viol("halfopen-permit-conservation", fmt.Sprintf("after all trials finished the half-open breaker grants %d permits, trial capacity %d (trial outcomes: %s)", n, capTrial, c04Outcomes(rd.execs)))
 			return
 		}
+	}
+	// ---- phase 3: the trials re-opened the breaker (through executions, so its delay function was consulted again and
+	// asked for 7x the delay). Open means open for THAT delay: it is what RemainingDelay reports, and after the fixed delay
+	// has passed an execution is still refused without entering the function.
+	rd.mu.Lock()
+	lastTwo := append([]struct {
+		seq   int64
+		state int
+	}(nil), rd.trans[max(0, len(rd.trans)-2):]...)
+	rd.mu.Unlock()
+	if cs.DelayFunc && delayCallsPhase1 == 1 && rd.cb.IsOpen() && len(lastTwo) == 2 && lastTwo[0].state == model.HalfOpen && lastTwo[1].state == model.Open {
+		want := 7 * time.Duration(cfg.Delay)
+		if rem := rd.cb.RemainingDelay(); rem != want {
+			viol("reopened-for-the-wrong-delay", fmt.Sprintf("failed trials re-opened the breaker, the delay function asked for %v: RemainingDelay() is %v with the clock frozen since", want, rem))
+			return
+		}
+		rd.clock.Add(cfg.Delay + 1)
+		if x := rd.exec(0, "ok", nil, nil); x.enter != 0 || !refusedOutcome(cs.Comp, x) {
+			viol("admitted-while-open", fmt.Sprintf("failed trials re-opened the breaker for %v (delay function); %v later an execution entered the function=%v with result (%d,%v)", want, time.Duration(cfg.Delay+1), x.enter != 0, x.res, x.err))
+			return
+		}
+		rep.Count("reopened_rounds_checked_against_delay_function", 1)
 	}
 	rep.Distinct(fmt.Sprintf("%s|%d/%d|%s|%d|%s|%v|%v|%d|%v", cfg.Kind, cfg.FailThreshold, cfg.FailCapacity, cfg.SuccKind, capTrial, cs.Comp, cs.Async, across > 0, maxOverlap, conservation))
 	if rep.WantSample() {
